@@ -148,7 +148,49 @@ func TestVerifReplayC16(t *testing.T) {
 }
 `
 
+// the runtime half: the lines the runtime reads back from a text file
+const c16RuntimeHarness = `package runtime
+
+import (
+	"fmt"
+	"os"
+	"path/filepath"
+	"strings"
+	"testing"
+)
+
+func TestVerifReplayC16Runtime(t *testing.T) {
+	dir := t.TempDir()
+	for n, lits := range [][]string{
+		{" leading space", "middle", "trailing space "},
+		{"only"},
+		{"", "x", ""},
+		{"\\t tab first", "a\\nb", "last\\t "},
+	} {
+		p := filepath.Join(dir, fmt.Sprintf("templ_%d.txt", n))
+		os.WriteFile(p, []byte(strings.Join(lits, "\n")), 0o644)
+		got, err := getWatchedStrings(p)
+		if err != nil || len(got) != len(lits) {
+			fmt.Printf("REPLAY-CONFIRMED [runtime] a text file holding the %d literals %q is read back as %d lines %q (err=%v)\n", len(lits), lits, len(got), got, err)
+			return
+		}
+		for i := range lits {
+			if got[i] != lits[i] {
+				fmt.Printf("REPLAY-CONFIRMED [runtime] literal %d of the text file is %q but the runtime hands %q to WriteString\n", i+1, lits[i], got[i])
+				return
+			}
+		}
+	}
+	fmt.Println("REPLAY-NOT-REPRODUCED bounded search: 4 text files read back line by line")
+}
+`
+
 func replayC16(r *Run, o *Obligation) *ReplayResult {
+	if strings.HasPrefix(o.Name, "runtime.") {
+		out, _ := r.runReplayTest("runtime", c16RuntimeHarness, map[string]string{}, "TestVerifReplayC16Runtime")
+		okc, detail := replayVerdict(out)
+		return &ReplayResult{Confirmed: okc, Input: "text files written to a temporary directory and read back by the real runtime", Detail: detail}
+	}
 	if r.replayOut == nil {
 		r.replayOut = map[string]string{}
 	}
